@@ -51,6 +51,7 @@ type Contract struct {
 	Declass  []*Clause
 	NoFrame  bool
 	Timeout  int
+	Bounded  []string // stated bounds (reported in the evidence)
 	Options  map[string]bool // engine options for the verification of this function (e.g. digits)
 	Source   string
 	Results  []string // result names override
@@ -403,6 +404,9 @@ func (db *SpecDB) loadFile(path string, pkgPath string, marker bool) error {
 				cur.Aliasing = rest
 			case "timeout":
 				cur.Timeout, _ = strconv.Atoi(rest)
+			case "bounded":
+				// a stated bound: the contract is verified only within it (reported as bounded, not as proved)
+				cur.Bounded = append(cur.Bounded, rest)
 			case "option":
 				if cur.Options == nil {
 					cur.Options = map[string]bool{}
